@@ -309,6 +309,8 @@ def synthetic_universe(total):
     for b in ("f64", "dec"):
         reg = env[b]["reg"]
         for name, d in declared.synthetic().items():
+            if name not in reg:
+                continue                       # f64-only definitions
             ent = reg[name]
 
             def viol(kind, key, text, case=None):
